@@ -4,12 +4,6 @@ open Lean
 namespace Tangelo.Driver
 open Tangelo.Codec
 
-abbrev Store := List (String × Circuit)
-
-def Store.get? (s : Store) (k : String) : Option Circuit := (s.find? (·.1 == k)).map (·.2)
-def Store.put (s : Store) (k : String) (c : Circuit) : Store :=
-  if s.any (·.1 == k) then s.map (fun p => if p.1 == k then (k, c) else p) else s ++ [(k, c)]
-
 def storeToJson (s : Store) : Json := Json.mkObj (s.map (fun (k, c) => (k, circuitToJson c)))
 
 def errJson (e : Err) : Json := Json.str e.toStr
@@ -17,7 +11,6 @@ def errJson (e : Err) : Json := Json.str e.toStr
 /-- decision procedures; `bias` resolves decisions whose margin is below 1e-9 -/
 def eqvB (bias : Bool) (g h : Gate) : Bool :=
   if Gate.eqvMargin g h < 1e-9 then
-    -- all non-parameter fields must still agree
     let bothCnot := (g.name == "CNOT" || g.name == "CX") && (h.name == "CNOT" || h.name == "CX")
     (bothCnot || g.name == h.name) && g.target == h.target && g.control == h.control && g.isVar == h.isVar && bias
   else Gate.eqv g h
@@ -27,107 +20,75 @@ def isSmallB (bias : Bool) (thr : Float) (g : Gate) : Bool :=
   | .ang a => let (b, m) := Circuit.smallTest g.name a thr; if m < 1e-9 then bias else b
   | _ => false
 
+def decideB (bias : Bool) : Decide := ⟨eqvB bias, isSmallB bias⟩
+
 def getStr (j : Json) (k : String) : String := match j.getObjValD k with | .str s => s | _ => ""
 def getBool (j : Json) (k : String) : Bool := match j.getObjValD k with | .bool b => b | _ => false
 def getFloat (j : Json) (k : String) (d : Float) : Float := match j.getObjValD k with
   | .num n => n.toFloat
   | _ => d
 
-/-- run a store transition under both biases; report `stable` iff both give the same result -/
-def both (f : Bool → Except Err (Store × Json)) (s : Store) : Store × Json :=
-  let r1 := f true
-  let r2 := f false
-  let render := fun (r : Except Err (Store × Json)) => match r with
-    | .ok (s', j) => (s', Json.mkObj [("r", j), ("store", storeToJson s')])
-    | .error e => (s, Json.mkObj [("r", errJson e), ("store", storeToJson s)])
-  let (s1, j1) := render r1
-  let (_, j2) := render r2
-  (s1, j1.setObjVal! "stable" (Json.bool (j1.compress == j2.compress)))
+def rawGateOfJson (j : Json) : Except String RawGate := do
+  let name : Option String := match j.getObjValD "n" with | .str s => some s | _ => none
+  let t ← match rawListOfJson? (j.getObjValD "t") with | some t => pure t | none => throw "bad target"
+  let c ← match j.getObjValD "c" with
+    | .null => pure none
+    | jc => match rawListOfJson? jc with | some c => pure (some c) | none => throw "bad control"
+  let p ← match paramOfJson? (j.getObjValD "p") with | some p => pure p | none => throw "bad param"
+  let v := match j.getObjValD "v" with | .bool b => b | _ => false
+  pure ⟨name, t, c, p, v⟩
 
-def needC (s : Store) (k : String) : Except Err Circuit := match s.get? k with
-  | some c => .ok c
-  | none => .error .other
-
-/-- one circuit-history operation (C11 / C09) -/
-def circOp (s : Store) (j : Json) : Store × Json :=
-  let op := getStr j "op"
+def copOfJson (j : Json) : Except String COp := do
   let dst := getStr j "dst"
+  let a := getStr j "a"
   let thr := getFloat j "thr" 1e-3
   let rq := getBool j "rq"
-  both (fun bias =>
-    let eqv := eqvB bias
-    let small := isSmallB bias thr
-    match op with
-    | "new" => do
-        let gs ← match gatesOfJson! (j.getObjValD "gates") with | .ok g => pure g | .error _ => throw Err.other
-        let c ← Circuit.ofGates gs (getNat? (j.getObjValD "n"))
-        pure (s.put dst c, Json.null)
-    | "add_gate" => do
-        let c ← needC s dst
-        match gateOfJson (j.getObjValD "gate") with
-        | .error _ => throw Err.other
-        | .ok (.error .value) => throw Err.value
-        | .ok (.error .type) => throw Err.type
-        | .ok (.ok g) =>
-          let c' ← c.addGate g
-          pure (s.put dst c', Json.null)
-    | "add" => do
-        let a ← needC s (getStr j "a"); let b ← needC s (getStr j "b")
-        let c ← a.add b
-        pure (s.put dst c, Json.null)
-    | "mul" => do
-        let a ← needC s (getStr j "a")
-        let n := (getInt? (j.getObjValD "n")).getD 0
-        let c ← a.mul n
-        pure (s.put dst c, Json.null)
-    | "copy" => do
-        let a ← needC s (getStr j "a"); let c ← a.copy
-        pure (s.put dst c, Json.null)
-    | "inverse" => do
-        let a ← needC s (getStr j "a"); let c ← a.inverse
-        pure (s.put dst c, Json.null)
-    | "trim" => do
-        let a ← needC s dst; let c ← a.trimQubits
-        pure (s.put dst c, Json.null)
-    | "reindex" => do
-        let a ← needC s dst
-        let idx := (getNatList? (j.getObjValD "idx")).getD []
-        let c ← a.reindexQubits idx
-        pure (s.put dst c, Json.null)
-    | "split" => do
-        let a ← needC s (getStr j "a")
-        let cs ← a.split (getBool j "trim")
-        let s' := cs.zipIdx.foldl (fun st (c, i) => st.put s!"{dst}{i}" c) s
-        pure (s', natJ cs.length)
-    | "stack" => do
-        let ids := match j.getObjValD "ids" with | .arr a => a.toList.filterMap (fun (x : Json) => match x with | Json.str s => some s | _ => none) | _ => []
-        let cs ← ids.mapM (needC s)
-        let c ← Circuit.stack cs
-        pure (s.put dst c, Json.null)
-    | "rsr" => do
-        let a ← needC s (getStr j "a"); let c ← Circuit.removeSmallWith small a rq
-        pure (s.put dst c, Json.null)
-    | "rrg" => do
-        let a ← needC s (getStr j "a"); let c ← Circuit.removeRedundantWith eqv a rq
-        pure (s.put dst c, Json.null)
-    | "merge" => do
-        let a ← needC s (getStr j "a"); let c ← Circuit.mergeRotationsWith eqv a
-        pure (s.put dst c, Json.null)
-    | "simplify" => do
-        let a ← needC s (getStr j "a")
-        let c ← Circuit.simplifyWith eqv small a ((getNat? (j.getObjValD "cycles")).getD 100) rq
-        pure (s.put dst c, Json.null)
-    | "depth" => do
-        let a ← needC s (getStr j "a")
-        pure (s, natJ a.depth)
-    | "eq" => do
-        let a ← needC s (getStr j "a"); let b ← needC s (getStr j "b")
-        pure (s, Json.bool (Circuit.eqvWith eqv a b))
-    | "entangled" => do
-        let a ← needC s (getStr j "a")
-        pure (s, Json.arr (a.entangledIndices.map natListToJson).toArray)
-    | "noop" => pure (s, Json.null)
-    | _ => throw Err.other) s
+  match getStr j "op" with
+  | "new" => do
+      let gs ← gatesOfJson! (j.getObjValD "gates")
+      pure (.new dst gs (getNat? (j.getObjValD "n")))
+  | "add_gate" => do
+      let g ← rawGateOfJson (j.getObjValD "gate")
+      pure (.addGate dst g)
+  | "add" => pure (.add dst a (getStr j "b"))
+  | "mul" => pure (.mul dst a ((getInt? (j.getObjValD "n")).getD 0))
+  | "copy" => pure (.copy dst a)
+  | "inverse" => pure (.inverse dst a)
+  | "trim" => pure (.trim dst)
+  | "reindex" => pure (.reindex dst ((getNatList? (j.getObjValD "idx")).getD []))
+  | "split" => pure (.split dst a (getBool j "trim"))
+  | "stack" =>
+      let ids := match j.getObjValD "ids" with
+        | .arr arr => arr.toList.filterMap (fun (x : Json) => match x with | Json.str s => some s | _ => none)
+        | _ => []
+      pure (.stack dst ids)
+  | "rsr" => pure (.rsr dst a thr rq)
+  | "rrg" => pure (.rrg dst a rq)
+  | "merge" => pure (.merge dst a)
+  | "simplify" => pure (.simplify dst a ((getNat? (j.getObjValD "cycles")).getD 100) thr rq)
+  | "depth" => pure (.depth a)
+  | "eq" => pure (.eq a (getStr j "b"))
+  | "entangled" => pure (.entangled a)
+  | "noop" => pure .noop
+  | o => throw s!"unknown op {o}"
+
+def resToJson : Res → Json
+  | .unit => Json.null
+  | .nat n => natJ n
+  | .bool b => Json.bool b
+  | .sets l => Json.arr (l.map natListToJson).toArray
+  | .err e => errJson e
+
+/-- one circuit-history operation (C11 / C09): run under both biases, `stable` iff same outcome -/
+def circOp (s : Store) (j : Json) : Store × Json :=
+  match copOfJson j with
+  | .error e => (s, jErr e)
+  | .ok op =>
+    let (s1, r1) := step (decideB true) s op
+    let (s2, r2) := step (decideB false) s op
+    let j1 := Json.mkObj [("r", resToJson r1), ("store", storeToJson s1)]
+    let j2 := Json.mkObj [("r", resToJson r2), ("store", storeToJson s2)]
+    (s1, j1.setObjVal! "stable" (Json.bool (j1.compress == j2.compress)))
 
 /-- exact simulation of a gate list: {"op":"sim","gates":[..],"n":w,"init":null|[..]} -/
 def simOp (j : Json) : Json :=
